@@ -124,6 +124,37 @@ class MasterRig:
         return f"{int(ret)}/{exc}/{ws}/{ab}/{show_table(m.dhcp_dict)}/{filestr}"
 
 
+def judge_relayed(l, io):
+    """one relayed request for ID r on a master with an empty table: afterwards at most one lease exists, it is r's,
+    and every address is leased once"""
+    names, parts = l.split(" ; "), io.split(" ; ")
+    req = bytes.fromhex(names[2].split()[-1])
+    rid = req[7]
+    asked = {rid}
+    for n in names[3:]:
+        t = n.split()
+        if t[:2] == ["env", "arrive"]:
+            b = bytes.fromhex(t[-1])
+            if len(b) >= 8 and b[6] == 195:
+                asked.add(b[7])          # another address request is another legitimate lease
+    for k, (name, part) in enumerate(zip(names, parts)):
+        if not name.startswith("m update"):
+            continue
+        f = part.split(" ~ ")
+        if len(f) < 2 or "dhcp=[" not in f[1]:
+            continue
+        tab = f[1].split("dhcp=[")[1].split("]")[0]
+        leases = [tuple(int(x) for x in e.split(":")) for e in tab.split(",") if e]
+        foreign = [i for i, _ in leases if i not in asked]
+        if foreign:
+            return Finding(l, f"op {k}: the master's table holds a lease for ID {foreign[0]}, which never asked (requests came from "
+                              f"{sorted(asked)}): {tab}", {"class": "foreign-lease"})
+        addrs = [a for _, a in leases]
+        if len(set(addrs)) != len(addrs):
+            return Finding(l, f"op {k}: one address leased to two IDs: {tab}", {"class": "double-lease"})
+    return None
+
+
 class C16(PropCheck):
     prop = "C16"
     rule = ("a history counts when at least one lease exists at some point in it, a persistence "
@@ -145,6 +176,9 @@ class C16(PropCheck):
 
     # ---------------------------------------------------------------------------------- impl
     def impl(self, line):
+        if line.startswith("net "):
+            from harness import netsession
+            return netsession.run_line(line)
         op, *args = line.split()
         self.n += 1
         if op == "mesh":
@@ -276,6 +310,22 @@ class C16(PropCheck):
                 p = ",".join(f"{k}={rng.randrange(1, 9)}" for k in keys) or "-"
                 out.append((f"loadjson {p} {t}", "load-arbitrary-file"))
         self.selfcheck(res, [l for l, _ in corpus_lines(self.prop)] + [l for l, _ in out])
+        # --- the master on real radios: an address request relayed by an existing child is answered with a routed frame
+        #     whose NETWORK_ACK the master awaits; other frames arrive meanwhile (they are unpacked into the shared
+        #     frame_buf).  The lease must be the requester's - one address, under the ID that asked.
+        for _ in range(12 if tier == "quick" else 200):
+            child = rng.choice([0o1, 0o2, 0o3, 0o4, 0o5])
+            via = child | (rng.randint(1, 5) << 3)
+            rid = rng.randint(1, 255)
+            req = (struct.pack("<HHHBB", via, 0, rng.randrange(65536), 195, rid)).hex()
+            ops = ["new m master 0 0", f"new c network 1 {child}", f"env inject 0 {rng.randint(1, 5)} {req}"]
+            for q in range(rng.randint(1, 3)):
+                other = struct.pack("<HHHBB", rng.choice([0o1, 0o5, 0o21, via]), rng.choice([0, 0, 0o6, 0o16]), rng.randrange(65536),
+                                    rng.choice([0, 1, 65, 195, 197, 130]), rng.choice([i for i in range(1, 256) if i != rid]))
+                ops.append(f"env arrive m {rng.choice([1, 3, 10, 40, 80, 100, 130, 160, 200]) * 1000000 + q} {rng.randint(0, 5)} {other.hex()}")
+            ops += ["m update", "m update"]
+            cs_extra = ("net 2 0 " + " ; ".join(ops), "master-on-radios-relayed-request")
+            out.append(cs_extra)
         return out
 
     def selfcheck(self, res, lines):
@@ -343,6 +393,7 @@ class C16(PropCheck):
                 ev.append(f"d:{rng.choice(pool)}:{rng.choice(ids)}:{w}")
             else:
                 ev.append(f"sa:{rng.choice(ids)}:{slot()}:{rng.choice('01')}")
+
         return ev
 
     # ---------------------------------------------------------------------------------- judge
@@ -358,6 +409,11 @@ class C16(PropCheck):
         the implementation was observed to do"""
         out, lines, idx = [], [], []
         for l, io, mo in triples:
+            if l.startswith("net 2 0 new m master 0 0 ; new c network 1 "):
+                f = judge_relayed(l, io)
+                if f:
+                    out.append(f)
+                continue
             if io.startswith("exc="):
                 continue
             op, *args = l.split()
